@@ -610,6 +610,85 @@ func init() {
 			}
 		}
 
+		// 4b. the two non-ASCII runes that (?i) and \w can match (U+017F long s, U+212A Kelvin sign):
+		// inside and around every keyword, between-word, and-word and month word, in sentences whose
+		// keyword makes the captured groups visible (a failed date keeps its constraint).
+		// Correspondence only.
+		foldRunes := []string{"\u017f", "\u212a"}
+		var foldWords []string
+		for _, kw := range c04DocKeywords[1:] {
+			foldWords = append(foldWords, kw.word)
+		}
+		foldWords = append(foldWords, c04DocBetween...)
+		foldWords = append(foldWords, c04DocAnd...)
+		for _, m := range c04DocMonths {
+			foldWords = append(foldWords, m.word)
+		}
+		foldWords = append(foldWords, "k", "s", "ks", "mark", "sk")
+		foldFrames := []func(w string) string{
+			func(w string) string { return w + " 1900" },
+			func(w string) string { return w + " 5 Mar 1900" },
+			func(w string) string { return "abt " + w + " 1900" },
+			func(w string) string { return "Bef. 5 " + w + " 1900" },
+			func(w string) string { return w + " 1850 and 1900" },
+			func(w string) string { return "bet 1850 " + w + " 1900" },
+			func(w string) string { return "bet " + w + " 1850 and aft " + w + " 1900" },
+			func(w string) string { return w + "1900" },
+		}
+		for _, w := range foldWords {
+			var variants []string
+			for _, fr := range foldRunes {
+				for p := 0; p <= len(w); p++ {
+					variants = append(variants, w[:p]+fr+w[p:]) // inserted
+					if p < len(w) {
+						variants = append(variants, w[:p]+fr+w[p+1:]) // replacing one letter
+					}
+				}
+			}
+			// the letters that fold onto these runes, replaced by them
+			variants = append(variants,
+				strings.NewReplacer("s", "\u017f", "S", "\u017f", "k", "\u212a", "K", "\u212a").Replace(w),
+				strings.NewReplacer("s", "\u017f").Replace(strings.ToUpper(w)))
+			for _, v := range variants {
+				for _, f := range foldFrames {
+					for _, cs := range []int{c04Lower, c04Upper} {
+						vv := v
+						if cs == c04Upper {
+							vv = strings.ToUpper(v) // ToUpper(long s) = S: also exercises plain case variants
+						}
+						c04Tie(c, f(vv))
+						c.Count("fold-rune")
+					}
+				}
+			}
+		}
+
+		// 4c. years outside 1..9999 (outside the property's quantifier; theorems any_numbers_as_coded,
+		// year_zero_as_coded, year_above_9999_as_coded describe the model): correspondence only.
+		oddYears := []string{"0", "00", "0000", "00000", "10000", "010000", "99999", "123456789", "9223372036854775806",
+			"9223372036854775807", "9223372036854775808", "18446744073709551616", "99999999999999999999",
+			"000000000000000000000000000001", "100000000000000000000000000000"}
+		oddDays := []string{"", "1 ", "29 ", "31 ", "0 ", "99999999999999999999 ", "032 "}
+		for _, kw := range c04DocKeywords {
+			for _, y := range oddYears {
+				for _, d := range oddDays {
+					for _, m := range []string{"", "Feb ", "mar ", "DECEMBER "} {
+						if d != "" && m == "" && r.Chance(2, 3) {
+							continue
+						}
+						pre := ""
+						if kw.word != "" {
+							pre = c04Case(r, r.Intn(4), kw.word) + " "
+						}
+						s := pre + d + m + y
+						c04Tie(c, s)
+						c04Tie(c, "from "+s+" to "+y)
+						c.Count("year-outside-domain")
+					}
+				}
+			}
+		}
+
 		// 5. Equals on pairs (DateRange.Equals with its constraint matrix): correspondence only
 		var pool []string
 		for i := 0; i < 60; i++ {
